@@ -30,6 +30,13 @@ var tokenText = map[string][]string{
 	"end": {"."}, "quoted": {"'a b'", "'it''s'"}, "op_infix": {"=", "is", "->"},
 }
 
+// two more concretisations of every token kind: characters outside ASCII that belong (or nearly belong) to the same lexical
+// class - digits, letters, spaces, symbols of other scripts, a combining mark, NUL, a byte that is not UTF-8
+var tokenTextOdd = [2]map[string]string{
+	{"name": "é日", "op_minus": "∀", "op_neck": "⊢", "var": "Ωx", "int": "٣", "float": "٣.٥", "dq": "\"é\\x41\\\"", "bq": "`é`", "quoted": "'\\x41\\é'", "op_infix": "≤"},
+	{"name": "a\u0301", "op_minus": "\u2212", "var": "_\u00a0", "int": "１２", "float": "1.0e٣", "dq": "\"\xff\"", "quoted": "'\x00'", "op_infix": "€", "comma": "，", "open": "（", "end": ".\u3000"},
+}
+
 var shapeText = map[string]string{
 	"var": "_", "atom": "foo", "nil": "[]", "int": "1", "maxint": "9223372036854775807", "minint": "-9223372036854775808", "float": "1.5", "compound": "f(x)",
 	"list": "[a,b]", "partial": "[a|_]", "improper": "[a|b]", "charlist": "\"ab\"", "callable_cut": "(true, !)", "stream": "user_output", "pi": "foo/1", "minus1": "-(1)",
@@ -157,12 +164,18 @@ func robustHandle(c map[string]J) map[string]J {
 	if c["kind"] == "tokens" {
 		toks := c["toks"].([]J)
 		variants := []string{}
-		for v := 0; v < 2; v++ {
+		for v := 0; v < 4; v++ {
 			for _, sep := range []string{" ", ""} {
 				var parts []string
 				for _, t := range toks {
 					s := tokenText[t.(string)]
-					parts = append(parts, s[v%len(s)])
+					txt := s[v%len(s)]
+					if v >= 2 {
+						if o, ok := tokenTextOdd[v-2][t.(string)]; ok {
+							txt = o
+						}
+					}
+					parts = append(parts, txt)
 				}
 				variants = append(variants, strings.Join(parts, sep))
 			}
